@@ -34,6 +34,9 @@ import traceback
 VERIF = os.path.dirname(os.path.dirname(os.path.abspath(__file__)))
 REPO = os.environ.get("VERIF_REPO", "/repo")
 WORK = os.path.join(VERIF, ".work")
+RERUN_MAX = 150  # cases per part remembered for the second pass
+RERUN_MIN = 20  # executed again whatever it costs
+RERUN_SECONDS = 3.0  # wall-clock budget of one part's second pass beyond RERUN_MIN cases
 
 
 # --------------------------------------------------------------------------- JSON codec
@@ -215,6 +218,7 @@ class Ctx:
         self._current_case = None
         self._part = None
         self._viol_count = 0
+        self._rerun = False  # second pass over already executed cases (state left behind by earlier cases)
         self.fuzz = None  # coverage-guided shard: {"index": i, "runs": n, "seconds": s, "result": path}
         self._explore_idx = 0
 
@@ -240,6 +244,9 @@ class Ctx:
     # ---- accounting
     def note(self, case=None, labels=(), nontrivial=False, key=None):
         """Account for one executed case.  `key` (default: the case) is hashed for distinctness."""
+        if self._rerun:
+            self.extra["rerun_cases"] = self.extra.get("rerun_cases", 0) + 1
+            return
         self.evaluations += 1
         if self._part:
             self.parts[self._part] = self.parts.get(self._part, 0) + 1
@@ -328,14 +335,27 @@ class Ctx:
         @given(strategy)
         def test(case):
             last["case"] = case
-            runner(case)
+            if len(seen) < RERUN_MAX:
+                seen.append(case)
+            try:
+                runner(case)
+            except Violation as v:
+                last["viol"] = {"clause": v.clause, "detail": sample_form(v.detail, 1500)}
+                raise
 
+        seen = []
         try:
             test()
+            self._rerun_pass(name, seen, runner)
         except Violation as v:
+            self._record_violation(name, self._current_case if getattr(self, "_history", None) else last.get("case"), v)
+        except hypothesis.errors.Flaky as e:
+            # the same case failed and then passed when Hypothesis repeated it: its outcome depends on what ran before
+            # it in this process (state shared between instances / calls) - that is a finding about the code under
+            # test, not an inconclusive run
+            v = Violation("%s.result_depends_on_earlier_cases" % self.prop,
+                          {"hypothesis": repr(e)[:500], "first_failure": last.get("viol")})
             self._record_violation(name, last.get("case"), v)
-        except hypothesis.errors.Flaky as e:  # nondeterministic check = harness problem
-            raise HarnessError("flaky: %r" % (e,))
         finally:
             self._part = None
 
@@ -431,6 +451,29 @@ class Ctx:
         atheris.Fuzz()
         finish(0)
 
+    def _rerun_pass(self, name, seen, runner):
+        """Second pass: the first cases of this part are executed once more, in the same process, after everything
+        else the part ran.  Every oracle is a function of the case alone, so a case that held the first time and
+        fails now was changed by state that earlier evaluations left behind (a cache or memo shared between
+        instances, a class-level container, a counter that is not reset).  The violation's replay file carries the
+        history that reproduces it."""
+        if not seen or os.environ.get("VERIF_NO_RERUN"):
+            return
+        t0 = time.time()
+        self._rerun = True
+        try:
+            for i, case in enumerate(seen):
+                if i >= RERUN_MIN and time.time() - t0 > RERUN_SECONDS:  # budget only, never a verdict
+                    break
+                try:
+                    runner(case)
+                except Violation as v:
+                    self._history = list(seen)
+                    raise Violation(v.clause, {"only_when_repeated_after_other_cases": True, "detail": v.detail},
+                                    sig=v.sig)
+        finally:
+            self._rerun = False
+
     def enumerate(self, cases, run_case, name="enum", exhaustive=True, stop_after=3):
         """Finite enumeration: every case of `cases` (sharded i % n == k in the thorough tier)."""
         if self.fuzz is not None:
@@ -439,10 +482,13 @@ class Ctx:
         runner = self._wrap(run_case)
         k, n = self.shard if self.shard else (0, 1)
         nviol = 0
+        seen = []
         try:
             for i, case in enumerate(cases):
                 if i % n != k:
                     continue
+                if len(seen) < RERUN_MAX:
+                    seen.append(case)
                 try:
                     runner(case)
                 except Violation as v:
@@ -451,6 +497,11 @@ class Ctx:
                     if nviol >= stop_after:
                         exhaustive = False
                         break
+            if not nviol:
+                try:
+                    self._rerun_pass(name, seen, runner)
+                except Violation as v:
+                    self._record_violation(name, self._current_case, v)
         finally:
             self._part = None
         if exhaustive:
@@ -506,11 +557,13 @@ class Ctx:
                         "detail": sample_form(v.detail, 4000),
                         "seed": self.seed,
                         "case": to_jsonable(case),
+                        **({"history": [to_jsonable(c) for c in self._history]} if getattr(self, "_history", None) else {}),
                     },
                     f,
                     indent=1,
                     sort_keys=True,
                 )
+        self._history = None
         self.violations.append(
             {"part": part, "clause": v.clause, "sig": v.sig, "replay": path, "detail": sample_form(v.detail, 1500)}
         )
@@ -701,6 +754,11 @@ def main(argv=None):
             rec = json.load(f)
         case = from_jsonable(rec["case"])
         part = rec.get("part", "main")
+        for h in rec.get("history", []):  # state-dependent failure: re-create the history first
+            try:
+                ctx._wrap(mod.PARTS[part])(from_jsonable(h))
+            except Violation:
+                pass
         try:
             ctx._wrap(mod.PARTS[part])(case)
         except Violation as v:
